@@ -236,15 +236,26 @@ def _tables(dl, n):
 
 
 def _alternate(its, conv):
+    """advance two iterators alternately; what they yielded is looked at only after both are exhausted (a yielded batch
+    must stay valid while the iteration goes on)"""
     got, live, turn = [[], []], [True, True], 0
     while any(live):
         if live[turn]:
             try:
-                got[turn].append(conv(next(its[turn])))
+                got[turn].append(next(its[turn]))
             except StopIteration:
                 live[turn] = False
         turn = 1 - turn
-    return got
+    return [[conv(b) for b in g] for g in got]
+
+
+def _held(it, conv):
+    """exhaust the iterator, THEN convert what it yielded"""
+    return [conv(b) for b in list(it)]
+
+
+def _idx(b):
+    return [int(i) for i in b]
 
 
 def _epochs(mk, case, canon, extra=None):
@@ -274,23 +285,15 @@ def _epochs(mk, case, canon, extra=None):
         if case.get("inter"):
             # two iterators of one batch sampler alive at once (epochs e0, e0+1) vs. one after the other
             E, G = mk(e0), mk(e0)
-            seq = [[[int(i) for i in b] for b in E.batch_sampler] for _ in range(2)]
-            its = [iter(G.batch_sampler), iter(G.batch_sampler)]
-            got, live, turn = [[], []], [True, True], 0
-            while any(live):
-                if live[turn]:
-                    try:
-                        got[turn].append([int(i) for i in next(its[turn])])
-                    except StopIteration:
-                        live[turn] = False
-                turn = 1 - turn
+            seq = [_held(E.batch_sampler, _idx) for _ in range(2)]
+            got = _alternate([iter(G.batch_sampler), iter(G.batch_sampler)], _idx)
             if got != seq:
                 out["meta"].append("two interleaved iterators of one batch sampler deliver other batches than two "
                                    "successive ones: %s vs %s" % (got, seq))
         if case.get("inter2"):
             # the same at the level of the loader: two live iterators of one loader (collated batches of epochs e0, e0+1)
             E, G = mk(e0), mk(e0)
-            seq = [[canon(b) for b in E] for _ in range(2)]
+            seq = [_held(E, canon) for _ in range(2)]
             got = _alternate([iter(G), iter(G)], canon)
             if got != seq:
                 out["meta"].append("two interleaved iterators of one loader deliver other batches than two successive passes")
@@ -302,8 +305,8 @@ def _epochs(mk, case, canon, extra=None):
             out["lenB"].append(int(len(B)))
             if A.epoch != e0 + j:
                 out["meta"].append("epoch counter is %d at iteration %d from %d" % (A.epoch, j, e0))
-            out["idx"].append([[int(i) for i in b] for b in A.batch_sampler])
-            col = [canon(b) for b in B]
+            out["idx"].append(_held(A.batch_sampler, _idx))
+            col = _held(B, canon)
             cols.append(col)
             if len(col) != out["lenB"][-1]:
                 out["meta"].append("len() = %d but %d batches delivered in epoch %d" % (out["lenB"][-1], len(col), e0 + j))
@@ -313,7 +316,7 @@ def _epochs(mk, case, canon, extra=None):
         C, D = mk(e0 + k), mk(0)
         D.epoch = e0 + k
         lnD = len(D)
-        cC, cD = [canon(b) for b in C], [canon(b) for b in D]
+        cC, cD = _held(C, canon), _held(D, canon)
         if cC != cols[k]:
             out["meta"].append("init_epoch=e0+k delivers other batches than iterating k epochs from e0")
         if cD != cols[k]:
@@ -353,7 +356,7 @@ def _loader(cls, case, e, data, p, dp, ds_kw, flags):
 
 def run_spect(case, root):
     from pydrobert.torch.data import (SpectDataLoader, SpectDataLoaderParams, SpectDataParams, SpectDataSet,
-                                      DynamicLengthDataLoaderParams)
+                                      DynamicLengthDataLoaderParams, SpectTrainingDataLoader, SpectEvaluationDataLoader)
 
     make_dir(root, case)
     has_alis, has_ids = not case["sa"], not case["su"]
@@ -373,6 +376,15 @@ def run_spect(case, root):
             if "ds" not in shared:
                 shared["ds"] = SpectDataSet(root, params=p, **ds_kw)
             data, ds_kw = shared["ds"], {}
+        cls_name = case.get("cls", "main")
+        if cls_name == "train":  # deprecated wrappers: their own defaults differ, so every flag is given
+            return SpectTrainingDataLoader(data, p, init_epoch=e, batch_first=case["bf"], data_params=dp, seed=case["seed"],
+                                           shuffle=case["shuffle"], sort_batch=case["sort"], **ds_kw)
+        if cls_name == "eval":
+            if case.get("eval_prefix_default") is not True and entry != "dataset":
+                ds_kw["file_prefix"] = ""
+            return SpectEvaluationDataLoader(data, p, batch_first=case["bf"], data_params=dp, seed=case["seed"], init_epoch=e,
+                                             shuffle=case["shuffle"], sort_batch=case["sort"], **ds_kw)
         return _loader(SpectDataLoader, case, e, data, p, dp, ds_kw, [case["shuffle"], case["bf"], case["sort"]])
 
     return _epochs(mk, case, lambda b: canon_spect(b, has_alis, has_ids, W))
@@ -510,19 +522,11 @@ def run_bbs(case):
             except StopIteration:
                 pass
             del it
-        first = [[int(i) for i in b] for b in s]
-        second = [[int(i) for i in b] for b in s]
+        first = _held(s, _idx)
+        second = _held(s, _idx)
         inter_same = True
         if case.get("inter"):
-            its = [iter(s), iter(s)]
-            got, live, turn = [[], []], [True, True], 0
-            while any(live):
-                if live[turn]:
-                    try:
-                        got[turn].append([int(i) for i in next(its[turn])])
-                    except StopIteration:
-                        live[turn] = False
-                turn = 1 - turn
+            got = _alternate([iter(s), iter(s)], _idx)
             inter_same = got == [second, second]
     except RuntimeError:
         return {"err": "RuntimeError"}
@@ -531,26 +535,68 @@ def run_bbs(case):
     return {"ok": first, "again_same": first == second and inter_same}
 
 
+def relayout(t, how):
+    """the same logical tensor in another memory layout / dtype: `t` transposed storage, `off` a slice of a larger
+    buffer with a storage offset, `step` every second element of a buffer, `wide` float64 features"""
+    if t is None or not how:
+        return t
+    if how == "wide":
+        return t.double() if t.is_floating_point() else t
+    if how == "t" and t.dim() == 2:
+        r = t.t().contiguous().t()
+    elif how == "off":
+        junk = torch.full((3,), -77, dtype=t.dtype)
+        r = torch.cat([junk, t.reshape(-1), junk])[3:3 + t.numel()].view(t.shape)
+    else:
+        r = torch.stack([t, torch.full_like(t, -77)], -1)[..., 0]
+    assert r.shape == t.shape and torch.equal(r, t)
+    return r
+
+
+def _container(seq, case):
+    return tuple(seq) if case.get("seqtype") == "tuple" else seq
+
+
+def _unchanged(before, seq):
+    """a collate function must not write into its inputs"""
+    flat = [x for tup in seq for x in (tup if isinstance(tup, tuple) else (tup,)) if isinstance(x, torch.Tensor)]
+    return len(before) == len(flat) and all(torch.equal(a, b) for a, b in zip(before, flat))
+
+
+def _snapshot(seq):
+    return [x.clone() for tup in seq for x in (tup if isinstance(tup, tuple) else (tup,)) if isinstance(x, torch.Tensor)]
+
+
 def run_collate(case):
     from pydrobert.torch.data import spect_seq_to_batch
 
     seq, items = [], []
+    lay = case.get("layout")
     for (i, T, ali, R) in case["items"]:
         feat = feat_of(i, T, case["F"])
         a = ali_of(i, T) if ali else None
         r = ref_rows(i, R, case["W"]) if R is not None else None
         items.append((feat, a if case["has_alis"] else None, r, i))
-        tup = [torch.tensor(feat, dtype=torch.float).view(T, case["F"])]
+        tup = [relayout(torch.tensor(feat, dtype=torch.float).view(T, case["F"]), lay)]
         if case["has_alis"]:
-            tup.append(None if a is None else torch.tensor(a, dtype=torch.long))
-        tup.append(None if r is None else ref_tensor(r, case["W"]))
+            tup.append(None if a is None else relayout(torch.tensor(a, dtype=torch.long), lay))
+        tup.append(None if r is None else relayout(ref_tensor(r, case["W"]), lay))
         if case["has_ids"]:
             tup.append(uname(i))
         seq.append(tuple(tup))
+    before = _snapshot(seq)
     try:
-        out = spect_seq_to_batch(seq, case["bf"], case["sort"], case["has_alis"], case["has_ids"])
+        if case.get("call") == "kw":
+            out = spect_seq_to_batch(seq=_container(seq, case), batch_first=case["bf"], sort=case["sort"],
+                                     has_alis=case["has_alis"], has_uttids=case["has_ids"])
+        else:
+            out = spect_seq_to_batch(_container(seq, case), case["bf"], case["sort"], case["has_alis"], case["has_ids"])
     except Exception as e:
         return {"err": exc_kind(e), "msg": str(e)[:200]}, items
+    if not _unchanged(before, seq):
+        return {"err": "inputs-modified", "msg": "spect_seq_to_batch wrote into its input tensors"}, items
+    if out[0].dtype != seq[0][0].dtype:
+        return {"err": "dtype", "msg": "feats come back as %s from %s input" % (out[0].dtype, seq[0][0].dtype)}, items
     return {"ok": canon_spect(out, case["has_alis"], case["has_ids"], case["W"])}, items
 
 
@@ -561,12 +607,18 @@ def run_lcollate(case):
     for (i, R) in case["items"]:
         r = ref_rows(i, R, case["W"])
         items.append((r, i))
-        t = ref_tensor(r, case["W"])
+        t = relayout(ref_tensor(r, case["W"]), case.get("layout"))
         seq.append((t, uname(i)) if case["has_ids"] else t)
+    before = _snapshot(seq)
     try:
-        out = lang_seq_to_batch(seq, case["bf"], case["sort"], case["has_ids"])
+        if case.get("call") == "kw":
+            out = lang_seq_to_batch(seq=_container(seq, case), batch_first=case["bf"], sort=case["sort"], has_uttids=case["has_ids"])
+        else:
+            out = lang_seq_to_batch(_container(seq, case), case["bf"], case["sort"], case["has_ids"])
     except Exception as e:
         return {"err": exc_kind(e), "msg": str(e)[:200]}, items
+    if not _unchanged(before, seq):
+        return {"err": "inputs-modified", "msg": "lang_seq_to_batch wrote into its input tensors"}, items
     return {"ok": canon_lang(out, case["has_ids"], case["W"])}, items
 
 
@@ -589,14 +641,22 @@ def run_cwcollate(case):
         win = windows_of(feat_of(i, T, case["F"]), case["left"], case["right"], False)
         a = ali_of(i, T) if ali else None
         items.append((win, a, i))
-        tup = [torch.tensor(win, dtype=torch.float).view(T, C, case["F"]), None if a is None else torch.tensor(a, dtype=torch.long)]
+        lay = case.get("layout")
+        tup = [relayout(torch.tensor(win, dtype=torch.float).view(T, C, case["F"]), lay),
+               None if a is None else relayout(torch.tensor(a, dtype=torch.long), lay)]
         if case["has_ids"]:
             tup.append(uname(i))
         seq.append(tuple(tup))
+    before = _snapshot(seq)
     try:
-        out = context_window_seq_to_batch(seq, case["has_ids"])
+        if case.get("call") == "kw":
+            out = context_window_seq_to_batch(seq=_container(seq, case), has_uttids=case["has_ids"])
+        else:
+            out = context_window_seq_to_batch(_container(seq, case), case["has_ids"])
     except Exception as e:
         return {"err": exc_kind(e), "msg": str(e)[:200]}, items
+    if not _unchanged(before, seq):
+        return {"err": "inputs-modified", "msg": "context_window_seq_to_batch wrote into its input tensors"}, items
     return {"ok": canon_cw(out, case["has_ids"])}, items
 
 
@@ -604,12 +664,25 @@ def run_window(case):
     from pydrobert.torch.data import extract_window
 
     feat = feat_of(0, case["T"], case["F"])
-    t = torch.tensor(feat, dtype=torch.float).view(case["T"], case["F"])
+    t = relayout(torch.tensor(feat, dtype=torch.float).view(case["T"], case["F"]), case.get("layout"))
+    before = t.clone()
     try:
-        w = extract_window(t, case["idx"], case["left"], case["right"], case["reverse"])
+        if case.get("call") == "kw":
+            w = extract_window(feat=t, frame_idx=case["idx"], left=case["left"], right=case["right"], reverse=case["reverse"])
+        elif case.get("call") == "default" and not case["reverse"]:
+            w = extract_window(t, case["idx"], case["left"], case["right"])
+        else:
+            w = extract_window(t, case["idx"], case["left"], case["right"], case["reverse"])
+        res_ = [[int(v) for v in r] for r in w.tolist()]
+        # the result may be a view of the input: writing into the INPUT afterwards is the caller's business, but the
+        # call itself must leave the input as it was
+        if not torch.equal(before, t):
+            return {"err": "inputs-modified", "msg": "extract_window wrote into feat"}, feat
+        if tuple(w.shape) != (1 + case["left"] + case["right"], case["F"]) or w.dtype != t.dtype:
+            return {"err": "shape", "msg": "%s %s" % (tuple(w.shape), w.dtype)}, feat
     except Exception as e:
         return {"err": exc_kind(e), "msg": str(e)[:200]}, feat
-    return {"ok": [[int(v) for v in r] for r in w.tolist()]}, feat
+    return {"ok": res_}, feat
 
 
 # ------------------------------------------------------------------------------------------
@@ -859,36 +932,74 @@ def gen_lens(rng, n, hi):
     return [rng.randint(0, hi) for _ in range(n)]
 
 
+def gen_names(rng, case, hows):
+    """unusual utterance ids and utterances on disk that do not belong to the data set (see WEIRD, make_dir)"""
+    n = len(case["lens"])
+    r = rng.random()
+    if r < 0.55:
+        return case
+    pool = list(WEIRD) if r < 0.85 else ["u%03d" % i for i in range(20)]
+    rng.shuffle(pool)
+    nd = rng.choice([0, 1, 1, 2]) if rng.random() < 0.6 else 0
+    case["names"] = sorted(pool[:n])
+    hows = [h for h in hows if h == "subset" or n >= 1]
+    case["decoys"] = [[nm, rng.randint(0, 3), rng.choice(hows)] for nm in pool[n:n + nd]]
+    return case
+
+
+def gen_entry(rng, case):
+    case["entry"] = rng.choice(["path", "path", "dataset", "split", "alias", "pos"])
+    case["omit_defaults"] = rng.random() < 0.4
+    case["inter2"] = rng.random() < 0.2
+    return case
+
+
 def gen_spect(rng, big):
     n = rng.choice([0, 1, 2, 3, 4, 5, 6, 7, 8, 9, 10, 12] if big else [0, 1, 2, 3, 4, 5, 6, 7, 8])
     lens = gen_lens(rng, n, 6)
     has_ref = rng.random() < 0.7
-    return dict(kind="spect", lens=lens, F=rng.choice([1, 2]), alis=rng.random() < 0.6,
-                refs=[rng.randint(0, 3) for _ in range(n)] if has_ref else None, Wf=rng.choice([1, 3]),
-                tokens_only=rng.random() < 0.5, bs=rng.randint(1, 5), nb=rng.choice([1, 2, 2, 3, 3, 4]),
-                dyn=rng.random() < 0.5, drop=rng.random() < 0.5, shuffle=rng.random() < 0.6,
-                seed=rng.choice([0, 0, 1, rng.randint(0, 10 ** 6), rng.randint(0, 10 ** 6)]), sort=rng.random() < 0.5, bf=rng.random() < 0.5,
-                su=rng.random() < 0.5, sa=rng.random() < 0.5, e0=rng.randint(0, 3), k=rng.randint(0, 2),
-                peek=rng.choice([None, 0, 1, 1, 2, 3]), inter=rng.random() < 0.3)
+    c = dict(kind="spect", lens=lens, F=rng.choice([1, 2]), alis=rng.random() < 0.6,
+             refs=[rng.randint(0, 3) for _ in range(n)] if has_ref else None, Wf=rng.choice([1, 3]),
+             tokens_only=rng.random() < 0.5, bs=rng.randint(1, 5), nb=rng.choice([1, 2, 2, 3, 3, 4]),
+             dyn=rng.random() < 0.5, drop=rng.random() < 0.5, shuffle=rng.random() < 0.6,
+             seed=rng.choice([0, 0, 1, rng.randint(0, 10 ** 6), rng.randint(0, 10 ** 6)]), sort=rng.random() < 0.5, bf=rng.random() < 0.5,
+             su=rng.random() < 0.5, sa=rng.random() < 0.5, e0=rng.randint(0, 3), k=rng.randint(0, 2),
+             peek=rng.choice([None, 0, 1, 1, 2, 3]), inter=rng.random() < 0.3)
+    if rng.random() < 0.12:
+        # long utterances, large batch sizes: the quantile / dynamic-size arithmetic away from the tiny numbers
+        c.update(lens=[rng.choice([rng.randint(0, 40), rng.randint(30, 40), 32]) for _ in range(n)], F=1, alis=False, refs=None,
+                 bs=rng.randint(1, 9), nb=rng.choice([2, 3, 4, 5]), k=0)
+    gen_entry(rng, c)
+    c["cls"] = rng.choice(["main", "main", "main", "train", "eval"])
+    return gen_names(rng, c, ["subset"] + (["noali"] if c["alis"] and not c["sa"] else []) + (["noref"] if c["refs"] is not None else []))
 
 
 def gen_lang(rng, big):
     n = rng.choice([0, 1, 2, 3, 4, 5, 6, 7, 8])
-    return dict(kind="lang", lens=gen_lens(rng, n, 5), Wf=rng.choice([1, 3]), tokens_only=rng.random() < 0.5,
-                bs=rng.randint(1, 4), nb=rng.choice([1, 2, 2, 3, 4]), dyn=rng.random() < 0.5,
-                drop=rng.random() < 0.5, shuffle=rng.random() < 0.5, seed=rng.choice([0, 0, 1, rng.randint(0, 10 ** 6), rng.randint(0, 10 ** 6)]),
-                sort=rng.random() < 0.5, bf=rng.random() < 0.5, su=rng.random() < 0.4,
-                e0=rng.randint(0, 2), k=rng.randint(0, 1), peek=rng.choice([None, 0, 1, 1, 2, 3]),
-                inter=rng.random() < 0.3)
+    c = dict(kind="lang", lens=gen_lens(rng, n, 5), Wf=rng.choice([1, 3]), tokens_only=rng.random() < 0.5,
+             bs=rng.randint(1, 4), nb=rng.choice([1, 2, 2, 3, 4]), dyn=rng.random() < 0.5,
+             drop=rng.random() < 0.5, shuffle=rng.random() < 0.5, seed=rng.choice([0, 0, 1, rng.randint(0, 10 ** 6), rng.randint(0, 10 ** 6)]),
+             sort=rng.random() < 0.5, bf=rng.random() < 0.5, su=rng.random() < 0.4,
+             e0=rng.randint(0, 2), k=rng.randint(0, 1), peek=rng.choice([None, 0, 1, 1, 2, 3]),
+             inter=rng.random() < 0.3)
+    return gen_names(rng, gen_entry(rng, c), ["subset"])
 
 
 def gen_cw(rng, big):
     n = rng.choice([0, 1, 2, 3, 4, 5, 6])
-    return dict(kind="cw", lens=gen_lens(rng, n, 4), F=rng.choice([1, 2]), alis=rng.random() < 0.6, refs=None, Wf=1,
-                bs=rng.randint(1, 4), drop=rng.random() < 0.5, left=rng.randint(0, 3), right=rng.randint(0, 3),
-                reverse=rng.random() < 0.5, su=rng.random() < 0.5, shuffle=rng.random() < 0.5,
-                seed=rng.choice([0, 0, 1, rng.randint(0, 10 ** 6), rng.randint(0, 10 ** 6)]), e0=rng.randint(0, 2), k=rng.randint(0, 1),
-                peek=rng.choice([None, None, 1, 2]), inter=False)
+    left, right = rng.randint(0, 3), rng.randint(0, 3)
+    if rng.random() < 0.5 and left == right:  # asymmetric windows are the interesting ones under reverse
+        right = (left + rng.randint(1, 3)) % 5
+    c = dict(kind="cw", lens=gen_lens(rng, n, 4), F=rng.choice([1, 2]), alis=rng.random() < 0.6, refs=None, Wf=1,
+             bs=rng.randint(1, 4), drop=rng.random() < 0.5, left=left, right=right,
+             reverse=rng.random() < 0.5, su=rng.random() < 0.5, shuffle=rng.random() < 0.5,
+             seed=rng.choice([0, 0, 1, rng.randint(0, 10 ** 6), rng.randint(0, 10 ** 6)]), e0=rng.randint(0, 2), k=rng.randint(0, 1),
+             peek=rng.choice([None, None, 0, 1, 2, 3]), inter=rng.random() < 0.3)
+    gen_entry(rng, c)
+    c["seed_via"] = rng.choice(["arg", "arg", "params", "both"]) if c["entry"] != "split" else "arg"
+    c["cls"] = rng.choice(["main", "main", "main", "train", "eval"])
+    c["dep_args"] = rng.random() < 0.25
+    return gen_names(rng, c, ["subset"] + (["noali"] if c["alis"] else []))
 
 
 def gen_bbs(rng, big):
@@ -916,28 +1027,37 @@ def gen_collate(rng, big):
     for i in rng.sample(range(20), n):
         items.append((i, rng.randint(0, 5), not (none_ali and rng.random() < 0.5),
                       None if all_ref_none or (none_ref and rng.random() < 0.5) else rng.randint(0, 3)))
-    return dict(kind="collate", items=items, F=rng.choice([1, 2]), W=rng.choice([1, 3]), bf=rng.random() < 0.5,
-                sort=rng.random() < 0.6, has_alis=rng.random() < 0.7, has_ids=rng.random() < 0.6)
+    return gen_call(rng, dict(kind="collate", items=items, F=rng.choice([1, 2]), W=rng.choice([1, 3]), bf=rng.random() < 0.5,
+                              sort=rng.random() < 0.6, has_alis=rng.random() < 0.7, has_ids=rng.random() < 0.6))
+
+
+def gen_call(rng, case):
+    """memory layout / dtype, calling convention, container type and unusual ids for the direct calls"""
+    case["layout"] = rng.choice([None, None, "t", "off", "step", "wide"])
+    case["call"] = rng.choice(["pos", "kw", "default"])
+    case["seqtype"] = rng.choice(["list", "tuple"])
+    case["weird"] = rng.random() < 0.4
+    return case
 
 
 def gen_lcollate(rng, big):
     n = rng.randint(1, 5)
-    return dict(kind="lcollate", items=[(i, rng.randint(0, 4)) for i in rng.sample(range(20), n)],
-                W=rng.choice([1, 3]), bf=rng.random() < 0.5, sort=rng.random() < 0.6, has_ids=rng.random() < 0.6)
+    return gen_call(rng, dict(kind="lcollate", items=[(i, rng.randint(0, 4)) for i in rng.sample(range(20), n)],
+                              W=rng.choice([1, 3]), bf=rng.random() < 0.5, sort=rng.random() < 0.6, has_ids=rng.random() < 0.6))
 
 
 def gen_cwcollate(rng, big):
     n = rng.randint(1, 4)
     some_none = rng.random() < 0.3
-    return dict(kind="cwcollate", items=[(i, rng.randint(0, 3), not (some_none and rng.random() < 0.5))
-                                         for i in rng.sample(range(20), n)],
-                F=rng.choice([1, 2]), left=rng.randint(0, 2), right=rng.randint(0, 2), has_ids=rng.random() < 0.6)
+    return gen_call(rng, dict(kind="cwcollate", items=[(i, rng.randint(0, 3), not (some_none and rng.random() < 0.5))
+                                                       for i in rng.sample(range(20), n)],
+                              F=rng.choice([1, 2]), left=rng.randint(0, 2), right=rng.randint(0, 2), has_ids=rng.random() < 0.6))
 
 
 def gen_window(rng, big):
     T = rng.randint(1, 6)
-    return dict(kind="window", T=T, F=rng.choice([1, 2]), idx=rng.randrange(T), left=rng.randint(0, 7),
-                right=rng.randint(0, 7), reverse=rng.random() < 0.4)
+    return gen_call(rng, dict(kind="window", T=T, F=rng.choice([1, 2]), idx=rng.randrange(T), left=rng.randint(0, 7),
+                              right=rng.randint(0, 7), reverse=rng.random() < 0.5))
 
 
 GENS = {"spect": gen_spect, "lang": gen_lang, "cw": gen_cw, "bbs": gen_bbs, "collate": gen_collate,
@@ -994,8 +1114,8 @@ def gen_cases(chk):
         cases.append(c)
     big = chk.tier == "thorough"
     mult = 12 if big else 1
-    plan = [("spect", 260), ("lang", 110), ("cw", 70), ("bbs", 400), ("collate", 200), ("lcollate", 80),
-            ("cwcollate", 60), ("window", 150)]
+    plan = [("spect", 280), ("lang", 160), ("cw", 150), ("bbs", 400), ("collate", 200), ("lcollate", 100),
+            ("cwcollate", 80), ("window", 150)]
     for kind, n in plan:
         for _ in range(n * mult):
             c = GENS[kind](chk.rng, big)
@@ -1028,6 +1148,7 @@ def nontrivial(case, out):
 def evaluate(chk, case, root):
     """-> (impl output, model-agreement term, spec term or None, aux)"""
     k = case["kind"]
+    set_names(case)
     with warnings.catch_warnings():
         warnings.simplefilter("ignore")
         if k == "spect":
@@ -1105,6 +1226,10 @@ def _shrink_cands(case):
             c["lens"] = case["lens"][:i] + case["lens"][i + 1:]
             if case.get("refs") is not None:
                 c["refs"] = case["refs"][:i] + case["refs"][i + 1:]
+            if case.get("names") is not None:
+                c["names"] = case["names"][:i] + case["names"][i + 1:]
+            if not c["lens"] and case.get("decoys"):  # a missing companion file only excludes while the directory has others
+                c["decoys"] = [d for d in case["decoys"] if d[2] == "subset"]
             yield c
         for i, v in enumerate(case["lens"]):
             if v > 0:
@@ -1139,6 +1264,16 @@ def _shrink_cands(case):
     if case.get("refs") is not None:
         c = dict(case)
         c["refs"] = None
+        yield c
+    for key, dflt in (("decoys", None), ("entry", "path"), ("cls", "main"), ("seed_via", "arg"), ("dep_args", False), ("inter2", False),
+                      ("omit_defaults", False), ("layout", None), ("call", "pos"), ("seqtype", "list"), ("weird", False)):
+        if case.get(key, dflt) not in (dflt, [], None) or (key == "decoys" and case.get(key)):
+            c = dict(case)
+            c[key] = dflt
+            yield c
+    if case.get("names") is not None and not case.get("decoys"):
+        c = dict(case)
+        c["names"] = None
         yield c
 
 
@@ -1199,11 +1334,17 @@ def run(chk, cases=None):
         chk.note_case(c, nontrivial(c, out), stream)
         chk.count("kind=" + c["kind"])
         chk.count("outcome=" + ("ok" if "ok" in out else "raise:" + out["err"]))
-        for key in ("nb", "bs", "dyn", "drop", "shuffle", "sort", "bf", "su", "sa", "tokens_only", "reverse", "has_alis", "has_ids", "peek", "inter"):
+        for key in ("nb", "bs", "dyn", "drop", "shuffle", "sort", "bf", "su", "sa", "tokens_only", "reverse", "has_alis", "has_ids", "peek", "inter",
+                    "inter2", "entry", "cls", "seed_via", "dep_args", "layout", "call", "seqtype", "weird", "omit_defaults"):
             if key in c:
                 chk.count("%s.%s=%s" % (c["kind"], key, c[key]))
         if "lens" in c:
             chk.count("%s.n=%d" % (c["kind"], len(c["lens"])))
+            chk.count("%s.names=%s" % (c["kind"], "own" if c.get("names") is not None else "default"))
+            chk.count("%s.decoys=%d" % (c["kind"], len(c.get("decoys") or [])))
+            chk.count("%s.seed=%s" % (c["kind"], "0" if c["seed"] == 0 else "other"))
+        if c["kind"] == "cw":
+            chk.count("cw.window=%s%s" % ("asym" if c["left"] != c["right"] else "sym", "+reverse" if c["reverse"] else ""))
     mres = coq_eval_bools(chk.workdir, IMPORTS, mterms, shard=120)
     source_tie(chk, cases, outs)
     need = [i for i in range(len(cases)) if sterms[i] is not None and needs_spec(cases[i], outs[i], mres[i])]
